@@ -30,11 +30,20 @@ def run(name, check=None):
     check = check or meta.get("detected_by_check") or meta["property"]
     ev = os.path.join(VERIF, "evidence", check + ".json")
     saved = open(ev).read() if os.path.exists(ev) else None
-    subprocess.run(["git", "-C", "/repo", "apply", os.path.join(d, "patch.diff")], check=True)
+    # SEED_REPO=<dir>: apply the patch in a scratch worktree of /repo instead (the checks follow VERIF_REPO),
+    # so that other runs reading /repo are not disturbed; default is /repo itself
+    repo = os.environ.get("SEED_REPO", "/repo")
+    env = dict(os.environ)
+    if repo != "/repo":
+        if not os.path.isdir(repo):
+            subprocess.run(["git", "-C", "/repo", "worktree", "add", "-q", "--detach", repo, "HEAD"], check=True)
+        subprocess.run(["git", "-C", repo, "checkout", "-q", "--detach", subprocess.run(["git", "-C", "/repo", "rev-parse", "HEAD"], capture_output=True, text=True).stdout.strip()], check=True)
+        env["VERIF_REPO"] = repo
+    subprocess.run(["git", "-C", repo, "apply", os.path.join(d, "patch.diff")], check=True)
     try:
-        r = subprocess.run([os.path.join(VERIF, "check"), check, "--tier", "quick"], capture_output=True, text=True, cwd=VERIF)
+        r = subprocess.run([os.path.join(VERIF, "check"), check, "--tier", "quick"], capture_output=True, text=True, cwd=VERIF, env=env)
     finally:
-        subprocess.run(["git", "-C", "/repo", "checkout", "--", "."], check=True)
+        subprocess.run(["git", "-C", repo, "checkout", "--", "."], check=True)
         # the evidence file must describe the unchanged tree, not the seeded one
         if saved is not None:
             open(ev, "w").write(saved)
